@@ -646,6 +646,12 @@ def sec_lo(rep):
                     exp = {"f2": 1, "fl": 1 - lam, "f3": lam}[kind]
                 elif family == "heavy":
                     exp = None
+                elif family == "asy" and process == "CC" and cls.__name__ == "AsyQuark":
+                    # the high-virtuality counterpart of the massive quark -> heavy-quark LO term is the
+                    # massless parton-model term (lambda -> 1): 2 |V|^2 x q(x) for F2 and xF3, nothing for FL
+                    exp = {"f2": 1, "fl": None, "f3": 1}[kind]
+                elif family == "asy" and cls.__name__ == "AsyGluon":
+                    exp = None
                 else:
                     exp = "any"  # asy / intrinsic LO kinematic factors: consistency is C03 matter
                 empty = rsl is None or (rsl.reg is None and rsl.sing is None and rsl.loc is None)
@@ -657,7 +663,7 @@ def sec_lo(rep):
                 out = [("is-delta", ok, True)]
                 if ok:
                     out.append(("delta-coefficient", rsl.loc(sy.x, rsl.args["loc"]), exp))
-                    out.append(("convolution-point", o.convolution_point(), sy.x if family == "light" else sy.x * (1 + sy.m2c / sy.Q2)))
+                    out.append(("convolution-point", o.convolution_point(), sy.x if family in ("light", "asy") else sy.x * (1 + sy.m2c / sy.Q2)))
                 return out
 
         extra = [sy.Q2 * (1 - sy.x) / sy.x > 4 * sy.m2c] if (family == "heavy" and process == "NC") else []
